@@ -467,6 +467,56 @@ func ruleAloneInBucket(c *core.Ctx) {
 		c.Unknown("anchor", pkgStore+".(DefaultFactory).Create", "", "not found")
 		return
 	}
+	// the flag is one object per bucket, shared by every store of that bucket: the driver refreshes
+	// it through the store it is opening, and stores opened earlier (replication pipelines, cached
+	// controllers) must see the change
+	{
+		info := create.Pkg.TypesInfo
+		shared := false
+		var flagObj types.Object
+		ast.Inspect(create.Decl.Body, func(n ast.Node) bool {
+			as, ok := n.(*ast.AssignStmt)
+			if !ok || len(as.Lhs) != 1 || len(as.Rhs) != 1 {
+				return true
+			}
+			if se, ok := as.Lhs[0].(*ast.SelectorExpr); ok && info.Uses[se.Sel] == field {
+				if id, ok := ast.Unparen(as.Rhs[0]).(*ast.Ident); ok {
+					flagObj = info.ObjectOf(id)
+				}
+			}
+			return true
+		})
+		if flagObj != nil {
+			lookup, stored := false, false
+			ast.Inspect(create.Decl.Body, func(n ast.Node) bool {
+				as, ok := n.(*ast.AssignStmt)
+				if !ok {
+					return true
+				}
+				// flag, ok := registry[<ledger>.Bucket]
+				if len(as.Lhs) == 2 && len(as.Rhs) == 1 {
+					if l, ok := as.Lhs[0].(*ast.Ident); ok && info.ObjectOf(l) == flagObj {
+						if ix, ok := ast.Unparen(as.Rhs[0]).(*ast.IndexExpr); ok && strings.HasSuffix(astx.SelectorPath(ix.Index), ".Bucket") {
+							if _, isMap := info.TypeOf(ix.X).Underlying().(*types.Map); isMap && strings.HasPrefix(astx.SelectorPath(ix.X), create.Decl.Recv.List[0].Names[0].Name+".") {
+								lookup = true
+							}
+						}
+					}
+				}
+				// registry[<ledger>.Bucket] = flag
+				if len(as.Lhs) == 1 && len(as.Rhs) == 1 {
+					if ix, ok := as.Lhs[0].(*ast.IndexExpr); ok && strings.HasSuffix(astx.SelectorPath(ix.Index), ".Bucket") {
+						if r, ok := ast.Unparen(as.Rhs[0]).(*ast.Ident); ok && info.ObjectOf(r) == flagObj {
+							stored = true
+						}
+					}
+				}
+				return true
+			})
+			shared = lookup && stored
+		}
+		c.Check(shared, "WMC/alone-flag", declKey(create)+":shared-per-bucket", pos(c, create.Decl), "one flag per bucket, looked up in and stored into the factory's registry", "the alone-in-bucket flag given to a new store is not the bucket's shared flag (factory registry keyed by the ledger's bucket): a store opened while its ledger was alone keeps skipping the ledger predicate after another ledger joins the bucket, and reads the other ledger's rows")
+	}
 	sites := ix.SitesOf(create.Obj)
 	nSites := 0
 	for _, s := range sites {
